@@ -31,6 +31,35 @@ pub struct SessionOut {
     /// raw messages seen (request, responses) for the C18 corpus
     pub messages: Vec<Vec<u8>>,
     pub received_ids: Vec<Id>,
+    /// the addresses the requester sampled into its poll (decoded from the message)
+    pub sample: Vec<Address>,
+}
+
+/// Mirrors of the crate-private wire enums, only to read the requester's sample back out of
+/// a poll message (postcard: variant indexes + fields in declaration order).
+#[derive(serde::Deserialize)]
+enum PollMirror {
+    Poll { request: RequestMirror },
+}
+
+#[derive(serde::Deserialize)]
+enum RequestMirror {
+    SyncRequest {
+        #[allow(dead_code)]
+        session_id: u128,
+        #[allow(dead_code)]
+        graph_id: aranya_runtime::GraphId,
+        #[allow(dead_code)]
+        max_bytes: u64,
+        commands: Vec<Address>,
+    },
+}
+
+/// The command sample of a poll message, if it decodes.
+pub fn poll_sample(msg: &[u8]) -> Option<Vec<Address>> {
+    match postcard::from_bytes::<PollMirror>(msg).ok()? {
+        PollMirror::Poll { request: RequestMirror::SyncRequest { commands, .. } } => Some(commands),
+    }
 }
 
 fn varint(b: &[u8], pos: &mut usize) -> Option<u128> {
@@ -91,11 +120,18 @@ pub fn sync_session<M: IoManager>(
         }
     };
     out.sample_size = sample;
+    match poll_sample(&buf[..len]) {
+        Some(s) if s.len() == sample => out.sample = s,
+        _ => obs.count("harness_poll_sample_not_decoded", 1),
+    }
     obs.max("max_sample_size", sample as u64);
     out.messages.push(buf[..len].to_vec());
     let mut responder = SyncResponder::new();
     match SyncIncoming::decode(&buf[..len]) {
         Ok(SyncIncoming::Poll(p)) => {
+            if std::env::var("RT_SYNC_DEBUG").is_ok() {
+                eprintln!("[dbg] poll sample {}", sample);
+            }
             if let Err(e) = responder.receive(p) {
                 obs.fail("C17", "responder-refused-valid-poll", json!({"ctx": ctx, "err": e.to_string()}));
                 out.aborted = true;
@@ -161,6 +197,10 @@ pub fn sync_session<M: IoManager>(
                 }
                 if cmds.len() > aranya_runtime::COMMAND_RESPONSE_MAX {
                     obs.fail("C17", "response-exceeds-command-limit", json!({"ctx": ctx, "n": cmds.len()}));
+                }
+                if std::env::var("RT_SYNC_DEBUG").is_ok() {
+                    let v: Vec<String> = cmds.iter().map(|c| { let id = *c.id().as_array(); match model.idx(&id) { Some(v) => format!("{v}{}", if req_set.get(v) { "" } else { "*" }), None => "?".into() } }).collect();
+                    eprintln!("[dbg] response {} ({} bytes buf {cur_buf}): {}", out.responses, n, v.join(" "));
                 }
                 // soundness: every command is committed at the responder, with identical content
                 for c in cmds.iter() {
